@@ -45,8 +45,10 @@ struct Val {
 	hlim::Node_Pin *pin = nullptr;
 	int depth = 0;
 	std::string lit; // const mode: the literal's bits
+	char pol = 'n'; // expansion policy the value carries (Signal.h: SignalReadPort::expansionPolicy)
 };
 
+static char polChar(Expansion e) { switch (e) { case Expansion::zero: return 'z'; case Expansion::one: return 'o'; case Expansion::sign: return 's'; default: return 'n'; } }
 static Expansion toExp(char p) {
 	switch (p) { case 'z': return Expansion::zero; case 'o': return Expansion::one; case 's': return Expansion::sign; default: return Expansion::none; }
 }
@@ -58,11 +60,18 @@ struct Builder {
 	bool failed = false;      // a construction threw: the case ends with the error marker
 	bool constMode = false;
 	bool wide = true;
+	bool beyond = true;       // static shift/rotate amounts larger than the width are generated
 	int maxDepth = 6;
 
 	Builder(Rng &r, std::ostream &os) : rng(r), o(os) {}
 
 	size_t genWidth(size_t lo = 0, size_t hi = 200) {
+		size_t w = genWidth0(lo, hi);
+		// construction-time evaluation of a zero-width expression crashes (see report); keep most const cases alive
+		if (constMode && w == 0 && hi > 0 && !rng.chance(1, 12)) w = std::max<size_t>(lo, 1 + rng.below(std::min<size_t>(hi, 8)));
+		return w;
+	}
+	size_t genWidth0(size_t lo, size_t hi) {
 		if (!wide) { hi = std::min<size_t>(hi, 12); }
 		for (int tries = 0; tries < 8; tries++) {
 			size_t w = (wide && rng.chance(1, 2)) ? rng.pick(widthClasses) : rng.range(lo, hi);
@@ -105,10 +114,12 @@ struct Builder {
 	template<class T> int push(T &&sig, char t, int depth) {
 		auto v = std::make_unique<Val>();
 		v->t = t; v->depth = depth;
-		if constexpr (std::is_same_v<std::decay_t<T>, Bit>) { v->b = std::make_unique<Bit>(sig); v->w = 1; v->port = v->b->readPort(); }
-		else if constexpr (std::is_same_v<std::decay_t<T>, UInt>) { v->u = std::make_unique<UInt>(sig); v->w = v->u->size(); v->port = v->u->readPort(); }
-		else if constexpr (std::is_same_v<std::decay_t<T>, SInt>) { v->s = std::make_unique<SInt>(sig); v->w = v->s->size(); v->port = v->s->readPort(); }
-		else { v->v = std::make_unique<BVec>(sig); v->w = v->v->size(); v->port = v->v->readPort(); }
+		SignalReadPort rp;
+		if constexpr (std::is_same_v<std::decay_t<T>, Bit>) { v->b = std::make_unique<Bit>(sig); v->w = 1; rp = v->b->readPort(); }
+		else if constexpr (std::is_same_v<std::decay_t<T>, UInt>) { v->u = std::make_unique<UInt>(sig); v->w = v->u->size(); rp = v->u->readPort(); }
+		else if constexpr (std::is_same_v<std::decay_t<T>, SInt>) { v->s = std::make_unique<SInt>(sig); v->w = v->s->size(); rp = v->s->readPort(); }
+		else { v->v = std::make_unique<BVec>(sig); v->w = v->v->size(); rp = v->v->readPort(); }
+		v->port = rp; v->pol = polChar(rp.expansionPolicy);
 		return pushVal(std::move(v));
 	}
 
@@ -126,7 +137,7 @@ struct Builder {
 				default:  { BVec x = BVec(lit.c_str()); idx = push(x, 'v', 0); } break;
 			}
 			vals[idx]->lit = bits;
-			o << "v " << idx << " lit " << t << ' ' << w << ' ' << bits << " -> " << vals[idx]->t << ' ' << vals[idx]->w << '\n';
+			o << "v " << idx << " lit " << t << ' ' << w << ' ' << bits << " -> " << vals[idx]->t << ' ' << vals[idx]->w << ' ' << vals[idx]->pol << '\n';
 			return idx;
 		}
 		if (t == 'b') {
@@ -143,7 +154,7 @@ struct Builder {
 			}
 			vals[idx]->pin = p.node();
 		}
-		o << "v " << idx << " pin " << t << ' ' << w << " -> " << vals[idx]->t << ' ' << vals[idx]->w << '\n';
+		o << "v " << idx << " pin " << t << ' ' << w << " -> " << vals[idx]->t << ' ' << vals[idx]->w << ' ' << vals[idx]->pol << '\n';
 		return idx;
 	}
 
@@ -176,7 +187,7 @@ struct Builder {
 			o << " -> " << (res == -1 ? "e" : "E") << '\n';
 			return -1;
 		}
-		o << " -> " << vals[res]->t << ' ' << vals[res]->w << '\n';
+		o << " -> " << vals[res]->t << ' ' << vals[res]->w << ' ' << vals[res]->pol << '\n';
 		return res;
 	}
 
@@ -398,7 +409,7 @@ struct Builder {
 		try { res = catRec(isCat, depth, a); }
 		catch (const gtry::utils::DesignError &) { res = -1; } catch (const gtry::utils::InternalError &) { res = -2; }
 		if (res < 0) { failed = true; o << " -> " << (res == -1 ? "e" : "E") << '\n'; return -1; }
-		o << " -> " << vals[res]->t << ' ' << vals[res]->w << '\n';
+		o << " -> " << vals[res]->t << ' ' << vals[res]->w << ' ' << vals[res]->pol << '\n';
 		return res;
 	}
 
@@ -480,7 +491,7 @@ struct Builder {
 			static const std::vector<std::string> ops = {"shl","shr","rotl","rotr"};
 			int A = operand(pickVecType(), dag);
 			// amounts beyond the width are part of the operator's domain (a shift by >= width is all fill, a rotate is modulo)
-			size_t amt = genAmount(V(A).w, true);
+			size_t amt = genAmount(V(A).w, beyond && (!dag || rng.chance(1, 3)));
 			std::string name = rng.pick(ops);
 			if (name == "rotl" && amt == 0) name = "rotr"; // rot(x, 0) takes the right-rotate branch anyway
 			return apply(name, {A}, {amt});
@@ -681,12 +692,12 @@ static std::string concretise(Rng &rng, const std::string &abs, bool full) {
 static void runCase(uint64_t caseSeed, size_t id, const std::string &mode, size_t nstim, std::ostream &o) {
 	Rng rng(caseSeed);
 	o << "case " << id << ' ' << mode << ' ' << caseSeed << '\n';
-	if (getenv("VERIF_DEBUG")) o.rdbuf(std::cerr.rdbuf());
 	DesignScope design;
 	Builder b(rng, o);
 	bool conc = mode == "conc" || mode == "concw";
 	b.constMode = mode == "const";
 	b.wide = !(mode == "conc") && !(mode == "dags");
+	b.beyond = !conc;
 	if (mode == "op") {
 		for (int tries = 0; tries < 20 && b.vals.empty(); tries++) b.genOp(false, true);
 		// skipped op categories leave only leaves behind; the last value is still a valid (trivial) expression
@@ -827,6 +838,51 @@ static void runLit(uint64_t caseSeed, size_t id, std::ostream &o) {
 	o << "end\n";
 }
 
+// Every case runs in a forked child so that a crash of the code under test (e.g. a segfault inside the simulator or inside
+// construction-time evaluation) is reported as a `crash` case instead of killing the harness. After a crash the case is
+// re-run in a second child that streams its output line by line, so the construction leading to the crash is kept.
+#include <unistd.h>
+#include <sys/wait.h>
+#include <ext/stdio_filebuf.h>
+
+static void runOne(uint64_t cs, size_t i, const std::string &mode, size_t nstim, std::ostream &o) {
+	if (mode == "lit") runLit(cs, i, o); else runCase(cs, i, mode, nstim, o);
+}
+
+static std::string runIsolated(uint64_t cs, size_t i, const std::string &mode, size_t nstim, bool streaming, int &status) {
+	int fds[2];
+	if (pipe(fds) != 0) { perror("pipe"); exit(3); }
+	std::cout.flush();
+	pid_t pid = fork();
+	if (pid < 0) { perror("fork"); exit(3); }
+	if (pid == 0) {
+		close(fds[0]);
+		if (streaming) {
+			__gnu_cxx::stdio_filebuf<char> fb(fds[1], std::ios::out, 1);
+			std::ostream os(&fb);
+			os << std::unitbuf;
+			runOne(cs, i, mode, nstim, os);
+			os.flush();
+		} else {
+			std::ostringstream buf;
+			runOne(cs, i, mode, nstim, buf);
+			std::string s = buf.str();
+			size_t off = 0;
+			while (off < s.size()) { ssize_t n = write(fds[1], s.data() + off, s.size() - off); if (n <= 0) break; off += (size_t)n; }
+		}
+		close(fds[1]);
+		_exit(0);
+	}
+	close(fds[1]);
+	std::string out;
+	char tmp[65536];
+	ssize_t n;
+	while ((n = read(fds[0], tmp, sizeof tmp)) > 0) out.append(tmp, (size_t)n);
+	close(fds[0]);
+	waitpid(pid, &status, 0);
+	return out;
+}
+
 int main(int argc, char **argv) {
 	uint64_t seed = vh::argU64(argc, argv, 1, 1);
 	size_t ncases = (size_t)vh::argU64(argc, argv, 2, 10);
@@ -834,18 +890,22 @@ int main(int argc, char **argv) {
 	size_t nstim = (size_t)vh::argU64(argc, argv, 4, mode == "conc" || mode == "concw" ? 9 : 8);
 	std::ios::sync_with_stdio(false);
 	std::cout << "# prop=C03/C08 seed=" << seed << " mode=" << mode << '\n';
-	Rng master(seed * 0x9E3779B97F4A7C15ull + std::hash<std::string>{}(mode) % 1000003);
-	// the per-mode offset must not depend on the platform's std::hash: use a fixed table instead
 	uint64_t modeSalt = mode == "op" ? 11 : mode == "dag" ? 23 : mode == "dags" ? 29 : mode == "const" ? 37 : mode == "lit" ? 41 : mode == "conc" ? 53 : 67;
-	master = Rng(seed * 0x9E3779B97F4A7C15ull + modeSalt);
+	Rng master(seed * 0x9E3779B97F4A7C15ull + modeSalt);
+	bool isolate = !getenv("VERIF_NOFORK");
 	for (size_t i = 0; i < ncases; i++) {
 		uint64_t cs = master.next();
-		if (getenv("VERIF_DEBUG")) std::cerr << "case " << i << " seed " << cs << std::endl;
 		if (getenv("VERIF_ONLY") && strtoull(getenv("VERIF_ONLY"), nullptr, 0) != i) continue;
-		std::ostringstream buf;
-		if (mode == "lit") runLit(cs, i, buf);
-		else runCase(cs, i, mode, nstim, buf);
-		std::cout << buf.str();
+		if (!isolate) { std::ostringstream buf; runOne(cs, i, mode, nstim, buf); std::cout << buf.str(); continue; }
+		int status = 0;
+		std::string out = runIsolated(cs, i, mode, nstim, false, status);
+		if (WIFEXITED(status) && WEXITSTATUS(status) == 0) { std::cout << out; continue; }
+		out = runIsolated(cs, i, mode, nstim, true, status);
+		// drop a trailing partial line, then mark the crash
+		size_t nl = out.rfind('\n');
+		out = nl == std::string::npos ? std::string() : out.substr(0, nl + 1);
+		if (out.empty()) out = "case " + std::to_string(i) + " " + mode + " " + std::to_string(cs) + "\n";
+		std::cout << out << "crash " << (WIFSIGNALED(status) ? "signal " + std::to_string(WTERMSIG(status)) : "exit " + std::to_string(WEXITSTATUS(status))) << "\nend\n";
 	}
 	return 0;
 }
